@@ -6,12 +6,15 @@ det.install()
 import checklib  # noqa: E402
 import core      # noqa: E402
 
-SUITES = {'C17': ('inplace', 'pack'), 'C08core': ('pack',), 'C03': ('tour', 'sim', 'pack'), 'C04': ('tour', 'sim', 'pack'),
+SUITES = {'C17': ('inplace', 'pack'), 'C10': ('pack', 'sim'), 'C03': ('tour', 'sim', 'pack'), 'C04': ('tour', 'sim', 'pack'),
           'C05': ('tour', 'sim', 'pack'), 'C09': ('tour', 'sim'),
           'C01': ('tour', 'sim', 'pack'), 'C02': ('tour', 'sim'), 'C07': ('tour', 'sim'),
           'C13': ('tour', 'sim'), 'C14': ('tour', 'sim'), 'C06': ('sched',)}
 
 RULES = {
+    'C10': 'UDF images of the core corpus (File Identifier packing witnesses of DirPack.tla, random histories with '
+           'reopen generations) decoded by the independent ECMA-167 decoder; TLC evaluates the image clauses of '
+           'UdfVolume.tla (Judge_UdfImage)',
     'C17': 'behaviours of the model that reopen an image and call modify_file_in_place (accepted: same sector count; '
            'refused: sector count changes, directory, missing, no data) on files at depth 1-2, hard-linked, with '
            'Joliet/UDF/XA/Rock Ridge twins, repeatedly; the bytes of the backing file before/after are classified '
@@ -80,6 +83,7 @@ def run_for(pid):
                 by_trace.setdefault(d['tid'], []).append(d)
             # image-level clauses (Judge_Image)
             ctx.note('images_judged', res.get('images_judged', 0))
+            ctx.note('udf_images_judged', res.get('udf_images_judged', 0))
             ctx.note('images_remastered', res.get('images_remastered', 0))
             for tid, clauses in res.get('image_fails', {}).items():
                 if '@' in tid:       # image item of a backing file after modify_file_in_place
